@@ -18,6 +18,9 @@ type vf22Gen struct {
 	r      *vfRand
 	nextID uint64
 	scores map[int]bool
+	// diverse: extensions uniform over vf22Exts and scores mostly inside one 0.9-window, so that several
+	// files of different novel extensions compete for the promotion (set by the collectSender test)
+	diverse bool
 }
 
 func vf22ExtID(name string) uint64 {
@@ -124,7 +127,7 @@ func (g *vf22Gen) chunk(ctx int, wellFormedOnly bool) (zoekt.ChunkMatch, bool) {
 func (g *vf22Gen) score() float64 {
 	for {
 		s := 600 + g.r.Intn(900)
-		if g.r.Chance(40) {
+		if g.r.Chance(40) || (g.diverse && g.r.Chance(70)) {
 			s = 950 + g.r.Intn(120)
 		}
 		if !g.scores[s] {
@@ -140,7 +143,7 @@ func (g *vf22Gen) file(chunkMode bool, ctx int, malformed bool) (zoekt.FileMatch
 	g.nextID++
 	id := g.nextID
 	ext := vf22Exts[0]
-	if r.Chance(45) {
+	if r.Chance(45) || g.diverse {
 		ext = r.Pick(vf22Exts)
 	}
 	fm := zoekt.FileMatch{FileName: fmt.Sprintf("d/f%d%s", id, ext), Score: g.score(), RepositoryID: uint32(id)}
